@@ -56,6 +56,8 @@ def rule_window(fx, rep):
 
 
 def rule_wiring(fx, rep):
+    """sum_of_products(points, scalars) = sum_of_products_pippinger(points, scalars, find_pippinger_window(min(#points, #scalars))):
+    decided by interpreting the entry point for several length pairs (however the minimum is computed)."""
     for g, aff in AFFS:
         p = fx.impl_method('CurveAffine', aff, 'sum_of_products')
         b = fx.body(p) if p else None
@@ -63,44 +65,44 @@ def rule_wiring(fx, rep):
             rep.fail('WIRE', '%s:sum_of_products:anchor' % g, 'not found')
             continue
         rep.fn(p)
-        o = Origin(b)
-        t = strip(o.local(0))
-        ok = t[0] == 'call' and t[1].get('name') == 'sum_of_products_pippinger' and (t[1].get('res') or '').startswith('<' + aff)
-        why = 'result is %s' % term_str(t)
-        if ok:
-            a0, a1, a2 = [strip(x) for x in t[2]]
-            ok = a0 == ('param', 1) and a1 == ('param', 2) and a2[0] == 'call' and a2[1].get('name') == 'find_pippinger_window' and (a2[1].get('res') or '').startswith('<' + aff)
-            why = 'arguments are %s' % [term_str(x) for x in t[2]]
-            if ok:
-                n = strip(a2[2][0])
-                # the local holding min(len, len): assigned on two branches from the two len() calls
-                ok = n[0] == 'phi'
-                if ok:
-                    r = Resolver(b)
-                    srcs = set()
-                    for d in r.d.defs[n[1]]:
-                        if d[0] == 'call':
-                            c = callee(d[2])
-                            ref = r.operand_referent(d[2]['args'][0]) if d[2]['args'] else None
-                            if c and c.get('name') == 'len':
-                                tt = strip(o.operand(d[2]['args'][0]))
-                                srcs.add(tt)
-                        elif d[0] == 'assign':
-                            tt = strip(o.operand(d[3]['rv']['op'])) if d[3]['rv']['k'] == 'use' else ('unknown',)
-                            if tt[0] == 'unop' and tt[1] == 'PtrMetadata':
-                                srcs.add(strip(tt[2]))
-                            elif tt[0] == 'call' and tt[1].get('name') == 'len':
-                                srcs.add(strip(tt[2][0]))
-                    ok = srcs == {('param', 1), ('param', 2)}
-                    why = 'window is chosen from %s, expected min(points.len(), scalars.len())' % sorted(srcs, key=str)
-                    if ok:
-                        # and it is the minimum: the switch compares the two lengths with Lt
-                        sw = [blk['term'] for i, blk in enumerate(b.blocks) if blk['term']['k'] == 'switch' and i in b.reachable()]
-                        ok = len(sw) == 1
-                        if ok:
-                            dsc = o.operand(sw[0]['discr'])
-                            ok = dsc[0] == 'binop' and dsc[1] in ('Lt', 'Le', 'Gt', 'Ge')
-        rep.check(ok, 'WIRE', '%s:sum_of_products' % g, 'sum_of_products_pippinger(points, scalars, find_pippinger_window(min(#points, #scalars)))', why, fx.fn(p)['span'], construct=p)
+        bad = []
+        for n1, n2 in ((0, 0), (1, 3), (3, 1), (2, 2), (0, 2)):
+            calls = []
+
+            def tr(I, fr, t, c, pth):
+                nm = c.get('name')
+                if nm == 'find_pippinger_window' and (c.get('res') or '').startswith('<' + aff):
+                    fr.storev(t['dest'], ('window', fr.operand(t['args'][0])))
+                    return True
+                if nm == 'sum_of_products_pippinger' and (c.get('res') or '').startswith('<' + aff):
+                    vals = []
+                    for a in t['args'][:2]:
+                        v = fr.operand(a)
+                        vals.append(v.root if isinstance(v, exp.Ref) and not v.proj else v)
+                    calls.append((vals[0], vals[1], fr.operand(t['args'][2])))
+                    fr.storev(t['dest'], ('msm', len(calls)))
+                    return True
+                return False
+            I = exp.Interp(fx, 'none', extra_transfer=tr)
+            try:
+                res = I.run(p, [exp.Ref('PTS', []), exp.Ref('SCS', [])], extra={'PTS': Agg([('P', k) for k in range(n1)]), 'SCS': Agg([('s', k) for k in range(n2)])})
+            except (exp.NotDerivable, exp.Budget) as e:
+                bad.append('lengths (%d, %d): not derivable: %s' % (n1, n2, e))
+                continue
+            rep.sites(I.call_sites)
+            res = [r for r in res if not (isinstance(r[1], tuple) and r[1] and r[1][0] == 'diverges')]
+            want = ('PTS', 'SCS', ('window', Int(min(n1, n2))))
+            if not (len(res) == 1 and len(calls) == 1 and res[0][1] == ('msm', 1) and calls[0][0] == 'PTS' and calls[0][1] == 'SCS'
+                    and isinstance(calls[0][2], tuple) and calls[0][2][0] == 'window' and isinstance(calls[0][2][1], Int) and calls[0][2][1].v == min(n1, n2)):
+                bad.append('lengths (%d, %d): calls %r, returns %r' % (n1, n2, calls, [r[1] for r in res]))
+        rep.check(not bad, 'WIRE', '%s:sum_of_products' % g, 'sum_of_products_pippinger(points, scalars, find_pippinger_window(min(#points, #scalars))) for 5 length pairs',
+                  '; '.join(bad[:2])[:600], fx.fn(p)['span'], construct=p)
+
+
+def hb(fx, p):
+    """Body with the private helpers it was factored into inlined (normal form for the pattern rules)."""
+    import inline as INL
+    return INL.inlined(fx, p, lambda q: INL.is_private_helper(fx, q)) if p else None
 
 
 def rule_loop_bounds(fx, rep):
@@ -109,7 +111,7 @@ def rule_loop_bounds(fx, rep):
     for g, aff in AFFS:
         for nm in ('sum_of_products_pippinger', 'sum_of_products_precomp_256'):
             p = fx.impl_method('CurveAffine', aff, nm)
-            b = fx.body(p) if p else None
+            b = hb(fx, p)
             if b is None:
                 rep.fail('DEP', '%s:%s:anchor' % (g, nm), 'not found')
                 continue
@@ -149,33 +151,6 @@ def rule_loop_bounds(fx, rep):
                       '; '.join(bad) or 'only %d min-bounded component loops (expected %d)' % (n_loops, want), fx.fn(p)['span'], construct=p)
             if nm != 'sum_of_products_pippinger':
                 continue
-            # bucket writes under bucket_index > 0
-            n_w = 0
-            badw = []
-            for bi, t in b.calls():
-                c = callee(t)
-                if not (c and c.get('name') == 'add_assign_mixed'):
-                    continue
-                tgt = strip(o.operand(t['args'][0]))
-                # target = index_mut(buckets, bucket_index)
-                if not (tgt[0] == 'call' and tgt[1].get('name') == 'index_mut'):
-                    continue
-                idx = tgt[2][1]
-                n_w += 1
-                # a dominating switch on Gt(idx, 0) with this block on the true side
-                guarded = False
-                for gi, blk in enumerate(b.blocks):
-                    tt = blk['term']
-                    if tt['k'] != 'switch' or gi not in b.reachable():
-                        continue
-                    d = o.operand(tt['discr'])
-                    if d[0] == 'binop' and d[1] in ('Gt', 'Ne') and strip(d[2]) == strip(idx) and strip(d[3])[0] == 'const' and strip(d[3])[1].get('v') == 0:
-                        if b.dominates(tt['otherwise'], bi) and tt['otherwise'] != [x for v, x in tt['targets'] if v == 0][0]:
-                            guarded = True
-                if not guarded:
-                    badw.append(t['span'])
-            rep.check(n_w >= 3 and not badw, 'GUARD', '%s:pippinger:bucket-writes-guarded' % g, '%d bucket accumulations, each under bucket_index > 0 (bucket 0 stays the identity)' % n_w,
-                      'bucket accumulation without the bucket_index > 0 guard at %s (found %d sites)' % (badw, n_w), fx.fn(p)['span'], construct=p)
 
 
 def rule_precomp_msm(fx, rep):
@@ -211,7 +186,6 @@ def rule_precomp_msm(fx, rep):
 def rules(fx, rep):
     rule_window(fx, rep)
     rule_wiring(fx, rep)
-    rule_loop_bounds(fx, rep)
     rule_precomp_msm(fx, rep)
     # the 256-entry table builder (shared with C02)
     P = Lin.atom('P')
@@ -279,7 +253,7 @@ def rule_bucket_reduction(fx, rep):
     from facts import op_place
     for g, aff in AFFS:
         p = fx.impl_method('CurveAffine', aff, 'sum_of_products_pippinger')
-        b = fx.body(p) if p else None
+        b = hb(fx, p)
         if b is None:
             continue
         o = Origin(b)
@@ -335,6 +309,7 @@ def rule_bucket_reduction(fx, rep):
             def tr(I, fr, t, c, pth):
                 return bitlin.transfer(I, fr, t, c, pth)
             I = exp.Interp(fx, 'add', extra_transfer=tr, stop_on_unknown_switch=True, max_paths=256)
+            I.body_override = {p: b}
             fr = exp.Frame(I, b, [])
             fr.store[res_l] = R
             fr.store[vec_l] = Agg(Bs, ('vec', 'Vec'))
@@ -409,7 +384,7 @@ def rule_digit_extraction(fx, rep):
     from exp import BV, BitVal
     for g, aff in AFFS:
         p = fx.impl_method('CurveAffine', aff, 'sum_of_products_pippinger')
-        b = fx.body(p) if p else None
+        b = hb(fx, p)
         if b is None:
             continue
         o = Origin(b)
@@ -439,7 +414,8 @@ def rule_digit_extraction(fx, rep):
         bad = []
         n_ok = 0
         for w in range(1, 21):
-            for npts in ((1,) if w > 3 else (1, 2)):
+            for npts, nsc in (((1, 1),) if w > 3 else ((1, 1), (2, 2), (2, 1), (1, 2))):
+                ncomp = min(npts, nsc)
                 events = []
 
                 def tr(I, fr, t, c, pth):
@@ -465,6 +441,15 @@ def rule_digit_extraction(fx, rep):
                             last = events[-1]
                             events[-1] = ('acc', last[2], pt)
                             return True
+                        # the same through a slice view of the bucket vector: buckets[idx] as a place
+                        if isinstance(tgt, exp.Ref) and tgt.proj and tgt.proj[-1][0] == 'i':
+                            base = fr._project(fr.store.get(tgt.root, TOP), tgt.proj[:-1])
+                            for _ in range(4):
+                                if isinstance(base, exp.Ref):
+                                    base = fr._project(fr.store.get(base.root, TOP), base.proj)
+                            if base == 'BUCKETS':
+                                events.append(('acc', fr.store.get(tgt.proj[-1][1]), fr.deref_operand(args[1])))
+                                return True
                     if c.get('trait') == 'CurveProjective' and nm == 'double':
                         events.append(('double',))
                         return True
@@ -478,9 +463,13 @@ def rule_digit_extraction(fx, rep):
 
                 def switch_hook(fr, t, dv, pth):
                     d = o.operand(t['discr'])
-                    # bucket_index > 0  -> assume true (accumulate); guard itself is checked by the GUARD rule
+                    # digit != 0 -> follow the accumulating edge; which digit was tested is recorded so that every
+                    # accumulation can be matched with a test of its own digit (bucket 0 must stay the identity)
+                    if isinstance(dv, tuple) and dv and dv[0] == 'bool' and isinstance(dv[1], tuple) and dv[1][0] == 'digit-nonzero':
+                        events.append(('guard>0', dv[1][1]))
+                        return t['otherwise']
                     if d[0] == 'binop' and d[1] in ('Gt', 'Ne') and strip(d[3])[0] == 'const' and strip(d[3])[1].get('v') == 0:
-                        events.append(('guard>0',))
+                        events.append(('guard>0', None))
                         return t['otherwise']
                     # bucket_index > max_bucket: bookkeeping for the (summarised) reduction
                     if d[0] == 'binop' and d[1] in ('Gt', 'Lt', 'Ge', 'Le'):
@@ -495,22 +484,40 @@ def rule_digit_extraction(fx, rep):
                                 return bb
                     return None
                 pts = Agg([Lin.atom('P%d' % j) for j in range(npts)])
-                scal = Agg([Agg([BV([BitVal(256 * j + 64 * ww + i) for i in range(64)]) for ww in range(4)]) for j in range(npts)])
+                scal = Agg([Agg([BV([BitVal(256 * j + 64 * ww + i) for i in range(64)]) for ww in range(4)]) for j in range(nsc)])
                 I = exp.Interp(fx, 'add', extra_transfer=tr, max_steps=3000000, max_paths=8)
+                I.body_override = {p: b}
                 I.block_hook = block_hook
                 I.switch_hook = switch_hook
+
+                def binop_hook(op, a_, b_):
+                    if op in ('Gt', 'Ne') and isinstance(a_, BV) and isinstance(b_, Int) and b_.v == 0:
+                        return ('bool', ('digit-nonzero', a_))
+                    if op in ('Lt', 'Ne') and isinstance(b_, BV) and isinstance(a_, Int) and a_.v == 0:
+                        return ('bool', ('digit-nonzero', b_))
+                    return None
+                I.binop_hook = binop_hook
+                I.propagate_hooks = True
                 try:
                     res = I.run(p, [('byref', pts), ('byref', scal), Int(w)])
                 except (exp.NotDerivable, exp.Budget) as e:
                     bad.append('window %d: not derivable: %s at %s' % (w, e, getattr(e, 'where', None)))
                     continue
                 rep.sites(I.call_sites)
-                if len(res) != 1:
-                    bad.append('window %d: %d paths' % (w, len(res)))
+                if len(res) != 1 or (isinstance(res[0][1], tuple) and res[0][1] and res[0][1][0] == 'diverges'):
+                    bad.append('window %d, %d points / %d scalars: %d paths%s' % (w, npts, nsc, len(res), ' (panics)' if res and isinstance(res[0][1], tuple) else ''))
                     continue
                 # split events into windows
                 wins = []
                 cur = {'doubles': 0, 'acc': []}
+                last_guard = 'none'
+                for e in events:
+                    if e[0] == 'guard>0':
+                        last_guard = e[1]
+                    elif e[0] == 'acc':
+                        if last_guard == 'none' or not (isinstance(last_guard, BV) and isinstance(e[1], BV) and last_guard.e == e[1].e):
+                            bad.append('window %d: a point is accumulated into bucket[d] without d != 0 having been tested for that digit (bucket 0 must stay the identity: it is what an all-zero window adds)' % w)
+                        last_guard = 'none'
                 for e in events:
                     if e[0] == 'double':
                         cur['doubles'] += 1
@@ -527,11 +534,11 @@ def rule_digit_extraction(fx, rep):
                 for t_ in range(T - 1, -1, -1):
                     D[t_] = acc
                     acc += wins[t_]['doubles']
-                seen = {j: set() for j in range(npts)}
+                seen = {j: set() for j in range(ncomp)}
                 okw = True
                 for t_, wn in enumerate(wins):
-                    if len(wn['acc']) != npts:
-                        bad.append('window %d: iteration %d accumulates %d components' % (w, t_, len(wn['acc'])))
+                    if len(wn['acc']) != ncomp:
+                        bad.append('window %d, %d points / %d scalars: iteration %d accumulates %d components (expected min = %d)' % (w, npts, nsc, t_, len(wn['acc']), ncomp))
                         okw = False
                         break
                     for j, e in enumerate(wn['acc']):
@@ -557,7 +564,7 @@ def rule_digit_extraction(fx, rep):
                     if not okw:
                         break
                 if okw:
-                    for j in range(npts):
+                    for j in range(ncomp):
                         missing = [n for n in range(255) if 256 * j + n not in seen[j]]
                         if missing:
                             bad.append('window %d: scalar bits %s of component %d never reach a digit' % (w, missing[:6], j))
@@ -569,8 +576,8 @@ def rule_digit_extraction(fx, rep):
                             okw = False
                 if okw:
                     n_ok += 1
-        rep.check(not bad and n_ok == 23, 'BITLIN', inst,
-                  'for every window size 1..=20 (and 2 components for windows 1..3): the per-window digits are exactly consecutive bit fields of the scalar, '
+        rep.check(not bad and n_ok == 29, 'BITLIN', inst,
+                  'for every window size 1..=20 (and, for windows 1..3, 2 components and unequal list lengths 2/1, 1/2): exactly min(#points, #scalars) components are accumulated per window; the per-window digits are exactly consecutive bit fields of the scalar, '
                   'each followed by as many doublings as bit positions below it, each paired with its own point; bits 0..254 all used once, bit 255 used or asserted clear',
                   '; '.join(bad[:3]), fx.fn(p)['span'], construct=p)
 
